@@ -4,6 +4,7 @@ import (
 	"context"
 	"fmt"
 	"reflect"
+	"slices"
 	"strconv"
 	"sync"
 	"sync/atomic"
@@ -385,8 +386,21 @@ func (r *collection) Remove(t reflect.Type) {
 	r.mu.Lock()
 	defer r.mu.Unlock()
 
-	typeKey := TypeKey{Type: t}
-	delete(r.services, typeKey)
+	r.removeLocked(TypeKey{Type: t})
+}
+
+// removeLocked drops a registration from every view of the collection, so that a
+// later Build neither validates nor constructs it.
+func (r *collection) removeLocked(key TypeKey) {
+	descriptor, ok := r.services[key]
+	if !ok {
+		return
+	}
+
+	delete(r.services, key)
+	r.allDescriptors = slices.DeleteFunc(r.allDescriptors, func(d *Descriptor) bool {
+		return d == descriptor
+	})
 }
 
 // RemoveKeyed removes a specific keyed service
@@ -398,8 +412,7 @@ func (r *collection) RemoveKeyed(t reflect.Type, key any) {
 	r.mu.Lock()
 	defer r.mu.Unlock()
 
-	typeKey := TypeKey{Type: t, Key: key}
-	delete(r.services, typeKey)
+	r.removeLocked(TypeKey{Type: t, Key: key})
 }
 
 // ToSlice returns a copy of all registered service descriptors
